@@ -65,6 +65,9 @@ class Parser:
         self._error_output = ''
         self._load_runtime()
         self._tokens = Lex(input_string).tokens()
+        # Forget where the previous parse stopped; next_token() does not move
+        # past an end-of-file token.
+        self._current_token = Token(TokenTypes.UNKNOWN)
         self.next_token()
         return self._script()
 
